@@ -151,6 +151,11 @@ HandlerErr(h) ==
 \* what the hook is told (errors.As view documented in the ErrorHandler comment)
 HookView(e) == CASE e.kind = "ve" -> "validationError" [] e.kind = "err" -> "sebufError"
                  [] e.kind = "custom" -> "protoMessage" [] OTHER -> "other"
+\* The TS server's hook (ServerOptions.onError) is handed the thrown value and returns the whole Response;
+\* a thrown ValidationError is answered with the 400 without the hook being asked (it may be asked).
+HookViewOf(r, e) == IF r.server = "ts" THEN (IF e.kind = "ve" THEN "validationError" ELSE "jsError") ELSE HookView(e)
+TsVeBypass(r, e) == r.server = "ts" /\ e.kind = "ve"
+HookOff(r) == [r EXCEPT !.hook = [on |-> FALSE, msg |-> FALSE, headers |-> FALSE, status |-> FALSE, body |-> FALSE]]
 
 ErrorResponse(r, e) ==
   LET h == r.hook IN
@@ -236,13 +241,15 @@ HandlerReturn ==
 
 CallHook ==
   /\ pc = "errored" /\ req.hook.on /\ hookSaw = "none"
-  /\ hookSaw' = HookView(err)
+  /\ hookSaw' = HookViewOf(req, err)
   /\ UNCHANGED <<pc, req, bodyRead, saw, err, resp, bound>>
 
 Respond ==
   /\ pc = "errored"
-  /\ req.hook.on => hookSaw # "none"
-  /\ resp' \in {ErrorResponse(req, err)} \cup DevErrorResponses(req, err)
+  /\ (req.hook.on /\ ~TsVeBypass(req, err)) => hookSaw # "none"
+  \* a hook that was not asked has overridden nothing
+  /\ resp' \in (IF req.hook.on /\ hookSaw = "none" THEN {ErrorResponse(HookOff(req), err)} ELSE {ErrorResponse(req, err)})
+                \cup DevErrorResponses(req, err)
   /\ pc' = "responding"
   /\ UNCHANGED <<req, bodyRead, saw, err, hookSaw, bound>>
 
@@ -295,8 +302,8 @@ C10_Custom ==
      resp.status = 500 /\ resp.kind = "custom" /\ resp.val = req.handler.val
 C10_Ctype == (Finished /\ ~resp.raw) => resp.ctype = RespCtype(req)
 C10_HookOverride ==
-  (Finished /\ req.hook.on /\ err.kind # "none") =>
-     /\ hookSaw = HookView(err)
+  (Finished /\ req.hook.on /\ err.kind # "none" /\ ~(TsVeBypass(req, err) /\ hookSaw = "none")) =>
+     /\ hookSaw = HookViewOf(req, err)
      /\ (req.hook.body => resp.raw /\ resp.val = "HOOKBODY")
      /\ ((req.hook.status /\ ~req.hook.body) => resp.status = 418)
      /\ ((req.hook.msg /\ ~req.hook.body) => resp.kind = "err" /\ resp.msg = "hooked")
